@@ -72,3 +72,50 @@ def locate(k0: bool, k1: bool, k2: bool, as_call: bool) -> bool:
         runtime = [f for f in r.feedback if f.category == "runtime"]
         return (len(runtime) == 1 and type(sb.exception).__name__ in (name, "KeyError") and runtime[0].location is not None
                 and runtime[0].location.line == line)
+
+
+REAL_PROGRAMS = [
+    "compile('1', 'f', 'eval')\n", "eval('1 + 1')\n", "exec('x = 1')\n", "g = globals()\n", "exit()\n",
+    "import pedal\n", "from pedal.core import report\n", "open('/etc/passwd')\n", "import sys\nsys.exit(2)\n",
+    "raise SystemExit\n", "def r():\n    return r()\nr()\n",
+    "class E(Exception):\n    def __str__(self):\n        raise ValueError('no')\nraise E()\n",
+    "class F(Exception):\n    def __repr__(self):\n        raise ValueError('no')\nraise F('x')\n",
+    "import sys\nsys.stdout.close()\nx = 1 / 0\n", "x = (\n", "def f(:\n    pass\n",
+]
+
+
+def real_programs(k0: bool, k1: bool, k2: bool, k3: bool, evaluate: bool) -> bool:
+    """
+    Real exec of 16 concrete programs that use a blocked builtin / module, exit the interpreter, recurse without bound,
+    raise an exception with broken __str__/__repr__, close stdout before failing, or do not compile: run() (and
+    evaluate() for the one-liners) returns normally, the failure is the sandbox's exception and exactly one
+    runtime-category feedback is attached.
+
+    pre: True
+    post: _
+    """
+    tick()
+    k = bits(k0, k1, k2, k3)
+    with NoTracing():
+        code = REAL_PROGRAMS[k]
+        r = Report()
+        contextualize_report(code if not evaluate else "pass", report=r)
+        sb = Sandbox(report=r)
+        sb.result_proxy_class = None
+        so = sys.stdout
+        try:
+            if evaluate:
+                line = code.strip()
+                if "\n" in line or line.startswith(("import", "from", "raise", "x =", "g =", "def")):
+                    return True
+                sb.evaluate(line)
+            else:
+                sb.run()
+        except Exception:
+            return False
+        finally:
+            while sb._current_patches:
+                sb._stop_patches()
+            sys.stdout = so
+        runtime = [f for f in r.feedback + r.ignored_feedback if f.category == "runtime"]
+        return sb.exception is not None and len(runtime) == 1 and bool(runtime[0])
